@@ -114,6 +114,7 @@ type Exec struct {
 	curFr *Frame
 	curSt *State
 	fromReg bool
+	ctcmpN  int
 	defMemo map[string]string
 	callOrdinal map[string]int
 	ghostVars map[string]Val // verdicts of the last crypto primitive calls (sig_ok, aead_ok)
